@@ -41,6 +41,9 @@ type Engine struct {
 	depthCap int
 	trustedUsed map[string]bool
 	callees  map[string]bool
+	nlaUF    bool
+	lastLoad map[ssa.Value]*Loc
+	lastRet  []ssa.Value
 }
 
 func (e *Engine) obligation(st *State, kind, label string, goal Term, note string) {
@@ -453,6 +456,9 @@ func (e *Engine) binop(st *State, op token.Token, x, y Val, resT types.Type, pos
 		case token.SUB:
 			return mk(Sub(a, b))
 		case token.MUL:
+			if e.nlaUF && !isNumeral(a) && !isNumeral(b) {
+				return mk(e.mulUF(a, b))
+			}
 			return mk(Mul(a, b))
 		case token.QUO:
 			e.obligationPanic(st, "div0", pos, Not(Eq(b, IntLit(0))))
@@ -580,6 +586,37 @@ func (e *Engine) binop(st *State, op token.Token, x, y Val, resT types.Type, pos
 		}
 	}
 	panic(unsupported("binary operator %s on sort %s", op, s))
+}
+
+func isNumeral(t Term) bool {
+	s := t.S
+	if strings.HasPrefix(s, "(- ") {
+		s = strings.TrimSuffix(s[3:], ")")
+	}
+	if s == "" {
+		return false
+	}
+	for _, c := range s {
+		if c < '0' || c > '9' {
+			return false
+		}
+	}
+	return true
+}
+
+// mulUF abstracts a product of two symbolic integers by an uninterpreted
+// function constrained only by facts that hold for real multiplication
+// (commutativity, sign, strict monotonicity in steps of the other factor).
+// A proof under this abstraction is a proof for real multiplication; it keeps
+// the solvers out of undecidable nonlinear arithmetic under quantifiers.
+func (e *Engine) mulUF(a, b Term) Term {
+	f := e.ctx.Fun("mul", []Sort{SInt, SInt}, SInt)
+	e.ctx.Axiom("mul_comm", "(forall ((x Int) (y Int)) (! (= (mul x y) (mul y x)) :pattern ((mul x y))))")
+	e.ctx.Axiom("mul_sign", "(forall ((x Int) (y Int)) (! (=> (and (<= 0 x) (<= 0 y)) (<= 0 (mul x y))) :pattern ((mul x y))))")
+	e.ctx.Axiom("mul_mono", "(forall ((x1 Int) (x2 Int) (y Int)) (! (=> (and (< x1 x2) (<= 0 y)) (<= (+ (mul x1 y) y) (mul x2 y))) :pattern ((mul x1 y) (mul x2 y))))")
+	e.ctx.Axiom("mul_zero", "(forall ((y Int)) (! (= (mul 0 y) 0) :pattern ((mul 0 y))))")
+	e.ctx.Axiom("mul_eq", "(forall ((x1 Int) (x2 Int) (y Int)) (! (=> (= x1 x2) (= (mul x1 y) (mul x2 y))) :pattern ((mul x1 y) (mul x2 y))))")
+	return T(SInt, "(%s %s %s)", f, a.S, b.S)
 }
 
 // ordLt is a strict total order on an uninterpreted sort (strings, abstract floats without NaN).
